@@ -1,7 +1,7 @@
 (* C03 (xfab.laue) - every orientation parametrisation yields a proper rotation equal to the documented composition;
    Rodrigues maps invert.  Definitions laue_* are regenerated from /repo/xfab/laue.py on every run. *)
 From Coq Require Import Reals.
-From XV Require Import RealLib Mat3 Atan2 Gen_laue P03_laue.
+From XV Require Import RealLib Mat3 Atan2 Gen_laue P03_laue P03_euler.
 Open Scope R_scope.
 
 Theorem C03_laue_euler_is_RzRxRz : forall p1 P p2, laue_euler_to_u p1 P p2 = mmul (Rz p1) (mmul (Rx P) (Rz p2)).
@@ -51,3 +51,22 @@ Print Assumptions C03_laue_u_to_rod_inverts.
 Theorem C03_laue_rod_to_u_inverts : forall U r, is_rot U -> laue_u_to_rod U = Some r -> laue_rod_to_u r = U.
 Proof. exact laue_rod_to_u_inv. Qed.
 Print Assumptions C03_laue_rod_to_u_inverts.
+
+(* u_to_euler: range of the returned angles; exact inverse of euler_to_u outside the code's own tolerance bands
+   (not_gimbal: PHI and pi - PHI at least 1e-8; generic: neither argument of _arctan2 below 1e-8 of the other);
+   inside the bands the behaviour is decided by the search on the implementation only. *)
+Theorem C03_laue_euler_range : forall U e, laue_u_to_euler U = Some e -> 0 <= vx e <= 2 * PI /\ 0 <= vy e <= PI /\ 0 <= vz e <= 2 * PI.
+Proof. exact euler_range. Qed.
+Print Assumptions C03_laue_euler_range.
+Theorem C03_laue_euler_inverts : forall U, is_rot U -> not_gimbal U -> generic (m02 U) (- m12 U) -> generic (m20 U) (m21 U) ->
+  exists e, laue_u_to_euler U = Some e /\ laue_euler_to_u (vx e) (vy e) (vz e) = U.
+Proof. exact euler_exact. Qed.
+Print Assumptions C03_laue_euler_inverts.
+Theorem C03_laue_euler_angles_recovered : forall p1 P p2, 0 <= p1 < 2 * PI -> 0 <= p2 < 2 * PI -> 0 < P < PI ->
+  let U := laue_euler_to_u p1 P p2 in
+  not_gimbal U -> generic (m02 U) (- m12 U) -> generic (m20 U) (m21 U) -> laue_u_to_euler U = Some (mkV3 p1 P p2).
+Proof. exact euler_of_angles. Qed.
+Print Assumptions C03_laue_euler_angles_recovered.
+Theorem C03_euler_nonvacuous : let U := laue_euler_to_u 1 1 1 in is_rot U /\ not_gimbal U /\ generic (m02 U) (- m12 U) /\ generic (m20 U) (m21 U).
+Proof. exact euler_111_generic. Qed.
+Print Assumptions C03_euler_nonvacuous.
